@@ -21,7 +21,7 @@ MANIFEST = dict(
     text="Symbolic round-trip check of the real to_json / JSONEncoder.default / from_json code: messages are constructed from concrete shapes (params / id / result / error / batch composition) "
          "with symbolic leaves (method name, ids, codes, messages, payload scalars); the solver explores every branch incl. falsy values, registered vs unregistered codes (dict look-up on a symbolic code). "
          "Oracle: wire exactness (jsonrpc, id iff call, params iff non-empty, exactly one of result/error, null result and null data kept), field equality after from_json, to_json fix-point, "
-         "error class == class registered for the code else the supplied base class (also inside batches).",
+         "error class == class registered for the code else the supplied base class (also inside batches); batches grown by append / extend after an earlier serialisation serialise as they are now; deserialised requests are independent objects (editing the parameters of one in place does not show up in the next one deserialised).",
     ref='5 C05',
     note="value<->text is the stdlib json: exercised on each path's concrete witness through the real json.dumps(cls=JSONEncoder)/json.loads, not decided by the solver. "
          "Payload nesting depth <= 3, batches <= 2 (quick) / 3 (thorough).",
